@@ -61,11 +61,13 @@ theorem advanceIngress_ok {macf : MacF} {c : VCtx} {p p1 : Path} {fi : Bool} {ou
             · split at h
               · split at h
                 · simp at h
-                · simp at h
-                · simp only [Except.ok.injEq, Prod.mk.injEq] at h
-                  obtain ⟨h1, h2, _⟩ := h
-                  subst h1 h2
-                  exact ⟨rfl, rfl, rfl, Nat.le_succ _, Nat.le_refl _, hlt, by simp⟩
+                · split at h
+                  · simp at h
+                  · simp at h
+                  · simp only [Except.ok.injEq, Prod.mk.injEq] at h
+                    obtain ⟨h1, h2, _⟩ := h
+                    subst h1 h2
+                    exact ⟨rfl, rfl, rfl, Nat.le_succ _, Nat.le_refl _, hlt, by simp⟩
               · simp at h
 
 /-- the checks `validate_hop` makes on every hop field it accepts: segment not from the future, hop field
@@ -130,11 +132,13 @@ theorem advanceEgress_ok {macf : MacF} {c : VCtx} {p p2 : Path} {eo : EgressOut}
         · rename_i hfin
           split at h
           · simp at h
-          · simp only [Except.ok.injEq, Prod.mk.injEq] at h
-            obtain ⟨h1, h2, h3⟩ := h
-            subst h1 h2 h3
-            refine ⟨rfl, rfl, rfl, rfl, rfl, by omega, hop, info, hh, hi, rfl, ?_⟩
-            by_cases hc : info.consDir = true <;> simp only [Hop.egressIf, hc] <;> (repeat' split) <;> first | rfl | simp_all
+          · split at h
+            · simp at h
+            · simp only [Except.ok.injEq, Prod.mk.injEq] at h
+              obtain ⟨h1, h2, h3⟩ := h
+              subst h1 h2 h3
+              refine ⟨rfl, rfl, rfl, rfl, rfl, by omega, hop, info, hh, hi, rfl, ?_⟩
+              by_cases hc : info.consDir = true <;> simp only [Hop.egressIf, hc] <;> (repeat' split) <;> first | rfl | simp_all
 
 
 theorem hopCount_eq {p q : Path} (h0 : q.seg0 = p.seg0) (h1 : q.seg1 = p.seg1) (h2 : q.seg2 = p.seg2) :
@@ -185,19 +189,21 @@ theorem advanceIngress_segchange {macf : MacF} {c : VCtx} {p p1 : Path} {fi : Bo
             · split at h
               · split at h
                 · simp at h
-                · simp at h
-                · rename_i nh ni hnh hni
-                  simp only [Except.ok.injEq, Prod.mk.injEq] at h
-                  obtain ⟨_, h2, h3⟩ := h
-                  subst h2
-                  -- the three validations are chained with `or_else`
-                  split at h3
-                  · simp at h3
-                  · rename_i hv1
-                    split at hv1
-                    · simp at hv1
-                    · rename_i hv0
-                      exact ⟨_, _, nh, ni, hv1, h3, hnh, rfl⟩
+                · split at h
+                  · simp at h
+                  · simp at h
+                  · rename_i nh ni hnh hni
+                    simp only [Except.ok.injEq, Prod.mk.injEq] at h
+                    obtain ⟨_, h2, h3⟩ := h
+                    subst h2
+                    -- the three validations are chained with `or_else`
+                    split at h3
+                    · simp at h3
+                    · rename_i hv1
+                      split at hv1
+                      · simp at hv1
+                      · rename_i hv0
+                        exact ⟨_, _, nh, ni, hv1, h3, hnh, rfl⟩
               · simp at h
 
 
